@@ -368,4 +368,377 @@ theorem ladder_range (tbl : List (String × Nat)) (ht : noDigitNames tbl = true)
     · rw [if_pos h', if_pos (by omega)]
     · rw [if_neg h', if_neg (by omega)]
 
+/-! ### the flattening specification -/
+
+/-- **Spec.** `Flatten names tbl ms l`: `l` is the flattening of the member list `ms` in order:
+a host contributes its (alias-resolved) address, a network its resolved address and mask (the
+mask `255.255.255.255` makes it a host), a description nothing, a `group-object` the flattening of
+the members of the group the table holds under that name. -/
+inductive Flatten (names : List (Str × Str)) (tbl : List (Str × Group)) : List Member → List Str → Prop
+  | nil : Flatten names tbl [] []
+  | host {h ms l} : Flatten names tbl ms l → Flatten names tbl (.host h :: ms) (resolve names h :: l)
+  | net32 {n ms l} : Flatten names tbl ms l → Flatten names tbl (.net n mask32 :: ms) (resolve names n :: l)
+  | net {n m ms l} : m ≠ mask32 → Flatten names tbl ms l →
+      Flatten names tbl (.net n m :: ms) ((resolve names n ++ '/' :: m) :: l)
+  | descr {ms l} : Flatten names tbl ms l → Flatten names tbl (.descr :: ms) l
+  | grp {g g' ms l l'} : dictGet tbl g = some g' → Flatten names tbl g'.members l' →
+      Flatten names tbl ms l → Flatten names tbl (.grp g :: ms) (l' ++ l)
+
+theorem Flatten.unique {names tbl ms l₁ l₂} (h₁ : Flatten names tbl ms l₁) (h₂ : Flatten names tbl ms l₂) :
+    l₁ = l₂ := by
+  induction h₁ generalizing l₂ with
+  | nil => cases h₂; rfl
+  | host _ ih => cases h₂ with | host h => rw [ih h]
+  | net32 _ ih =>
+    cases h₂ with
+    | net32 h => rw [ih h]
+    | net hne _ => exact absurd rfl hne
+  | net hne _ ih =>
+    cases h₂ with
+    | net32 h => exact absurd rfl hne
+    | net _ h => rw [ih h]
+  | descr _ ih => cases h₂ with | descr h => exact ih h
+  | grp hg _ _ ih' ih =>
+    cases h₂ with
+    | grp hg2 h2' h2 =>
+      rw [hg] at hg2; cases hg2
+      rw [ih' h2', ih h2]
+
+/-- the members a (valid) group body may contain, and where its references point -/
+def WellFormed (tbl : List (Str × Group)) (rank : Str → Nat) (self : Str) (ms : List Member) : Prop :=
+  ∀ m ∈ ms, m ≠ .bad ∧ ∀ g, m = .grp g → ∃ g', dictGet tbl g = some g' ∧ g'.name = g ∧ rank g < rank self
+
+/-- acyclic reference graph: every group of the table is well formed w.r.t. a rank function -/
+def Acyclic (tbl : List (Str × Group)) (rank : Str → Nat) : Prop :=
+  ∀ k g, dictGet tbl k = some g → WellFormed tbl rank g.name g.members
+
+theorem expandList_flatten (names tbl) (rank : Str → Nat) (recur : Group → Except Err (List Str))
+    (self : Str)
+    (hrec : ∀ g g', dictGet tbl g = some g' → g'.name = g → rank g < rank self →
+      ∃ l, recur g' = .ok l ∧ Flatten names tbl g'.members l)
+    (ms : List Member) (hwf : WellFormed tbl rank self ms) :
+    ∃ l, expandList names tbl recur self ms = .ok l ∧ Flatten names tbl ms l := by
+  induction ms with
+  | nil => exact ⟨[], rfl, .nil⟩
+  | cons m ms ih =>
+    obtain ⟨l, hl, hf⟩ := ih (fun m' hm' => hwf m' (by simp [hm']))
+    have hm := hwf m (by simp)
+    cases m with
+    | host h => exact ⟨_, by simp [expandList, plainMember, hl, bind, Except.bind], .host hf⟩
+    | net n k =>
+      by_cases hk : k = mask32
+      · subst hk; exact ⟨_, by simp [expandList, plainMember, hl, bind, Except.bind], .net32 hf⟩
+      · exact ⟨_, by simp [expandList, plainMember, hk, hl, bind, Except.bind], .net hk hf⟩
+    | descr => exact ⟨l, by simp [expandList, plainMember, hl, bind, Except.bind], .descr hf⟩
+    | bad => exact absurd rfl hm.1
+    | grp g =>
+      obtain ⟨g', hg', hname, hrank⟩ := hm.2 g rfl
+      obtain ⟨l', hl', hf'⟩ := hrec g g' hg' hname hrank
+      have hne : g ≠ self := by intro h; subst h; omega
+      exact ⟨l' ++ l, by simp [expandList, plainMember, hne, hg', hl', hl, bind, Except.bind], .grp hg' hf' hf⟩
+
+
+theorem expand_flatten (names tbl) (rank : Str → Nat) (hac : Acyclic tbl rank) :
+    ∀ (fuel : Nat) (g : Group), WellFormed tbl rank g.name g.members → rank g.name ≤ fuel →
+      ∃ l, expand names tbl fuel g = .ok l ∧ Flatten names tbl g.members l := by
+  intro fuel
+  induction fuel with
+  | zero =>
+    intro g hwf hr
+    exact expandList_flatten names tbl rank _ g.name (fun k g' _ _ hlt => by omega) g.members hwf
+  | succ f ih =>
+    intro g hwf hr
+    refine expandList_flatten names tbl rank _ g.name ?_ g.members hwf
+    intro k g' hk hname hlt
+    have := hac k g' hk
+    exact ih g' this (by rw [hname]; omega)
+
+/-! ### any rank function can be replaced by one bounded by the number of table entries -/
+
+theorem dictGet_foldl_mem {α : Type} (defs : List (Str × α)) (k : Str) (init : Option α) (v : α)
+    (h : defs.foldl (fun acc p => if p.1 = k then some p.2 else acc) init = some v) :
+    init = some v ∨ k ∈ defs.map (·.1) := by
+  induction defs generalizing init with
+  | nil => left; simpa using h
+  | cons p ps ih =>
+    simp only [List.foldl_cons] at h
+    rcases ih _ h with h' | h'
+    · by_cases hp : p.1 = k
+      · right; simp [hp]
+      · left; simpa [hp] using h'
+    · right; simp [h']
+
+theorem dictGet_mem_keys {α : Type} (defs : List (Str × α)) (k : Str) (v : α)
+    (h : dictGet defs k = some v) : k ∈ defs.map (·.1) := by
+  rcases dictGet_foldl_mem defs k none v h with h | h
+  · cases h
+  · exact h
+
+theorem countP_lt_of_witness (l : List Str) (p q : Str → Bool) (himp : ∀ x, p x = true → q x = true)
+    (m : Str) (hm : m ∈ l) (hq : q m = true) (hp : p m = false) : l.countP p < l.countP q := by
+  induction l with
+  | nil => cases hm
+  | cons a as ih =>
+    have hle : as.countP p ≤ as.countP q := List.countP_mono_left (fun x _ => himp x)
+    rcases List.mem_cons.mp hm with h | h
+    · subst h; simp only [List.countP_cons, hq, hp, if_true, Bool.false_eq_true, if_false]; omega
+    · have := ih h
+      simp only [List.countP_cons]
+      by_cases hpa : p a = true
+      · simp [hpa, himp a hpa]; omega
+      · simp [hpa]; split <;> omega
+
+/-- the number of table keys of smaller rank -/
+def boundedRank (tbl : List (Str × Group)) (rank : Str → Nat) (n : Str) : Nat :=
+  (tbl.map (·.1)).countP (fun k => rank k < rank n)
+
+theorem boundedRank_le (tbl rank n) : boundedRank tbl rank n ≤ tbl.length := by
+  unfold boundedRank; have := List.countP_le_length (p := fun k => decide (rank k < rank n)) (l := tbl.map (·.1)); simpa using this
+
+theorem boundedRank_lt (tbl : List (Str × Group)) (rank : Str → Nat) (g self : Str) (hg : g ∈ tbl.map (·.1))
+    (h : rank g < rank self) : boundedRank tbl rank g < boundedRank tbl rank self := by
+  unfold boundedRank
+  apply countP_lt_of_witness _ _ _ _ g hg
+  · simpa using h
+  · simp
+  · intro x hx; simp at hx ⊢; omega
+
+theorem wellFormed_bounded (tbl rank self ms) (h : WellFormed tbl rank self ms) :
+    WellFormed tbl (boundedRank tbl rank) self ms := by
+  intro m hm
+  refine ⟨(h m hm).1, ?_⟩
+  intro g hg
+  obtain ⟨g', h1, h2, h3⟩ := (h m hm).2 g hg
+  exact ⟨g', h1, h2, boundedRank_lt tbl rank g self (dictGet_mem_keys tbl g g' h1) h3⟩
+
+/-- with the fuel the model uses (`number of table entries + 1`) every acyclic group expands -/
+theorem expand_flatten_model_fuel (names tbl) (rank : Str → Nat) (hac : Acyclic tbl rank) (g : Group)
+    (hwf : WellFormed tbl rank g.name g.members) :
+    ∃ l, expand names tbl (tbl.length + 1) g = .ok l ∧ Flatten names tbl g.members l := by
+  apply expand_flatten names tbl (boundedRank tbl rank)
+  · intro k g' hk; exact wellFormed_bounded _ _ _ _ (hac k g' hk)
+  · exact wellFormed_bounded _ _ _ _ hwf
+  · have := boundedRank_le tbl rank g.name; omega
+
+/-! ### dictionaries -/
+theorem dict_foldl_init {α : Type} (d : List (Str × α)) (k : Str) (init : Option α) :
+    d.foldl (fun acc p => if p.1 = k then some p.2 else acc) init =
+      (d.foldl (fun acc p => if p.1 = k then some p.2 else acc) none).or init := by
+  induction d generalizing init with
+  | nil => simp
+  | cons p ps ih =>
+    simp only [List.foldl_cons]
+    rw [ih, ih (init := if p.1 = k then some p.2 else none)]
+    by_cases hp : p.1 = k
+    · simp [hp]
+    · simp [hp]
+
+theorem dictGet_append {α : Type} (d₁ d₂ : List (Str × α)) (k : Str) :
+    dictGet (d₁ ++ d₂) k = (dictGet d₂ k).or (dictGet d₁ k) := by
+  unfold dictGet
+  rw [List.foldl_append, dict_foldl_init]
+
+theorem dictGet_cons {α : Type} (p : Str × α) (ps : List (Str × α)) (k : Str) :
+    dictGet (p :: ps) k = (dictGet ps k).or (if p.1 = k then some p.2 else none) := by
+  have := dictGet_append [p] ps k
+  simpa [dictGet] using this
+
+theorem dictGet_eq_none_iff {α : Type} (defs : List (Str × α)) (k : Str) :
+    dictGet defs k = none ↔ k ∉ defs.map (·.1) := by
+  induction defs with
+  | nil => simp [dictGet]
+  | cons p ps ih =>
+    rw [dictGet_cons]
+    by_cases hp : p.1 = k
+    · simp [hp]
+    · simp [hp, ih, Ne.symm hp]
+
+/-- **last definition wins**: the table answers `v` for `k` exactly when some definition `(k, v)` is
+followed by no further definition of `k` -/
+theorem dictGet_eq_some_iff {α : Type} (defs : List (Str × α)) (k : Str) (v : α) :
+    dictGet defs k = some v ↔
+      ∃ pre post, defs = pre ++ (k, v) :: post ∧ k ∉ post.map (·.1) := by
+  induction defs with
+  | nil => simp [dictGet]
+  | cons p ps ih =>
+    rw [dictGet_cons]
+    constructor
+    · intro h
+      cases hps : dictGet ps k with
+      | some w =>
+        rw [hps] at h; simp at h; subst h
+        obtain ⟨pre, post, he, hn⟩ := (ih).mp hps
+        exact ⟨p :: pre, post, by simp [he], hn⟩
+      | none =>
+        rw [hps] at h; simp at h
+        obtain ⟨h1, h2⟩ := h
+        refine ⟨[], ps, ?_, (dictGet_eq_none_iff ps k).mp hps⟩
+        cases p; simp at h1 h2 ⊢; exact ⟨h1, h2⟩
+    · rintro ⟨pre, post, he, hn⟩
+      cases pre with
+      | nil =>
+        simp at he; obtain ⟨rfl, rfl⟩ := he
+        have hnone := (dictGet_eq_none_iff _ k).mpr hn
+        simp [hnone]
+      | cons q qs =>
+        simp at he; obtain ⟨rfl, rfl⟩ := he
+        have := ih.mpr ⟨qs, post, rfl, hn⟩
+        simp [this]
+
+theorem nodup_eraseDups (l : List Str) : l.eraseDups.Nodup := by
+  induction hn : l.length using Nat.strongRecOn generalizing l with
+  | _ n ih =>
+    cases l with
+    | nil => simp
+    | cons a as =>
+      rw [List.eraseDups_cons, List.nodup_cons]
+      constructor
+      · rw [List.mem_eraseDups]; simp
+      · exact ih _ (by subst hn; simp; exact Nat.lt_succ_of_le (List.length_filter_le _ _)) _ rfl
+
+/-- the items of a table: one per defined key, carrying the last definition -/
+theorem mem_dictItems {α : Type} (defs : List (Str × α)) (k : Str) (v : α) :
+    (k, v) ∈ dictItems defs ↔ dictGet defs k = some v := by
+  unfold dictItems
+  simp only [List.mem_filterMap, List.mem_eraseDups, Option.map_eq_some_iff]
+  constructor
+  · rintro ⟨k', _, w, hw, heq⟩; cases heq; exact hw
+  · intro h; exact ⟨k, dictGet_mem_keys defs k v h, v, h, rfl⟩
+
+theorem mem_multiItems {α : Type} (defs : List (Str × α)) (k : Str) (vs : List α) :
+    (k, vs) ∈ multiItems defs ↔ k ∈ defs.map (·.1) ∧ vs = (defs.filter (·.1 = k)).map (·.2) := by
+  unfold multiItems multiGet
+  simp only [List.mem_map, List.mem_eraseDups]
+  constructor
+  · rintro ⟨k', hk', heq⟩; cases heq; exact ⟨hk', rfl⟩
+  · rintro ⟨h, rfl⟩; exact ⟨k, h, rfl⟩
+
+
+/-! ### canonical text of a port specification -/
+
+/-- `eq N`, `range A B`, `lt N`, `gt N`, `neq N` with decimal operands -/
+def specText : PortOp → Str
+  | .eq n => "eq ".toList ++ toDec n
+  | .range a b => "range ".toList ++ (toDec a ++ ' ' :: toDec b)
+  | .lt n => "lt ".toList ++ toDec n
+  | .gt n => "gt ".toList ++ toDec n
+  | .neq n => "neq ".toList ++ toDec n
+
+/-- the operand bounds under which the operator denotes a non-empty subset of 1..65535 -/
+def valid : PortOp → Bool
+  | .eq n => 1 ≤ n && n ≤ 65535
+  | .range a b => 1 ≤ a && a ≤ b && b ≤ 65535
+  | .lt n => 2 ≤ n && n ≤ 65535
+  | .gt n => 1 ≤ n && n ≤ 65534
+  | .neq n => 1 ≤ n && n ≤ 65535
+
+theorem ladder_specText (tbl : List (String × Nat)) (ht : noDigitNames tbl = true) (op : PortOp) :
+    ladder tbl (specText op) = if valid op then .ok op else .error .requirementFailure := by
+  cases op with
+  | eq n => show ladder tbl ("eq ".toList ++ toDec n) = _; rw [ladder_eq tbl ht n]; simp [valid]
+  | lt n => show ladder tbl ("lt ".toList ++ toDec n) = _; rw [ladder_lt tbl ht n]; simp [valid]
+  | gt n => show ladder tbl ("gt ".toList ++ toDec n) = _; rw [ladder_gt tbl ht n]; simp [valid]
+  | neq n => show ladder tbl ("neq ".toList ++ toDec n) = _; rw [ladder_neq tbl ht n]; simp [valid]
+  | range a b =>
+    show ladder tbl ("range ".toList ++ (toDec a ++ ' ' :: toDec b)) = _
+    rw [ladder_range tbl ht a b]
+    simp only [valid]
+    by_cases h1 : b < a
+    · have : ¬ a ≤ b := by omega
+      simp [h1, this]
+    · have : a ≤ b := by omega
+      simp [h1, this]
+
+theorem last_toDec_not_space (pre : Str) (n : Nat) (c : Char) (h : (pre ++ toDec n).getLast? = some c) :
+    isSpace c = false := by
+  rw [List.getLast?_append] at h
+  cases hl : (toDec n).getLast? with
+  | none => exact absurd (List.getLast?_eq_none_iff.mp hl) (toDec_ne_nil n)
+  | some x =>
+    rw [hl] at h; simp at h; subst h
+    exact toDec_space_free n x (List.mem_of_mem_getLast? hl)
+
+theorem kw_initials_not_space : ∀ c ∈ ['e', 'r', 'l', 'g', 'n'], isSpace c = false := by decide +kernel
+
+theorem strip_specText (op : PortOp) : strip (specText op) = specText op := by
+  apply strip_id
+  · intro c hc
+    cases op with
+    | eq n => have e : (specText (.eq n)).head? = some 'e' := rfl
+              rw [e] at hc; cases hc; exact kw_initials_not_space _ (by simp)
+    | range a b => have e : (specText (.range a b)).head? = some 'r' := rfl
+                   rw [e] at hc; cases hc; exact kw_initials_not_space _ (by simp)
+    | lt n => have e : (specText (.lt n)).head? = some 'l' := rfl
+              rw [e] at hc; cases hc; exact kw_initials_not_space _ (by simp)
+    | gt n => have e : (specText (.gt n)).head? = some 'g' := rfl
+              rw [e] at hc; cases hc; exact kw_initials_not_space _ (by simp)
+    | neq n => have e : (specText (.neq n)).head? = some 'n' := rfl
+               rw [e] at hc; cases hc; exact kw_initials_not_space _ (by simp)
+  · intro c hc
+    cases op with
+    | range a b =>
+      change ("range ".toList ++ (toDec a ++ ' ' :: toDec b)).getLast? = some c at hc
+      have e : "range ".toList ++ (toDec a ++ ' ' :: toDec b) = ("range ".toList ++ toDec a ++ [' ']) ++ toDec b := by simp
+      rw [e] at hc
+      exact last_toDec_not_space ("range ".toList ++ toDec a ++ [' ']) b c hc
+    | eq n => exact last_toDec_not_space "eq ".toList n c hc
+    | lt n => exact last_toDec_not_space "lt ".toList n c hc
+    | gt n => exact last_toDec_not_space "gt ".toList n c hc
+    | neq n => exact last_toDec_not_space "neq ".toList n c hc
+
+/-- the two protocols `L4Object` knows -/
+def isProto (p : Str) : Prop := p = "tcp".toList ∨ p = "udp".toList
+
+theorem parseSpec_specText (proto : Str) (hp : isProto proto) (op : PortOp) :
+    parseSpec proto "asa".toList (specText op) = if valid op then .ok op else .error .requirementFailure := by
+  rcases hp with rfl | rfl
+  · simp only [parseSpec, strip_specText]
+    rw [← ladder_specText _ tcp_noDigitNames op]
+    simp
+  · simp only [parseSpec, strip_specText]
+    rw [← ladder_specText _ udp_noDigitNames op]
+    simp
+
+theorem parseSpec_bare (proto : Str) (hp : isProto proto) (n : Nat) :
+    parseSpec proto "asa".toList (toDec n) = if valid (.eq n) then .ok (.eq n) else .error .requirementFailure := by
+  have hv : (valid (.eq n) = true) ↔ (1 ≤ n ∧ n ≤ 65535) := by simp [valid]
+  rcases hp with rfl | rfl
+  · simp only [parseSpec, strip_toDec, ladder_bare _ tcp_noDigitNames n, hv]
+    simp
+  · simp only [parseSpec, strip_toDec, ladder_bare _ udp_noDigitNames n, hv]
+    simp
+
+
+/-- the exception class of a failed call -/
+def errOf {α : Type} : Except Err α → Option Err
+  | .error e => some e
+  | .ok _ => none
+
+/-! ### named services -/
+def okIs (r : Except Err PortOp) (op : PortOp) : Bool :=
+  match r with
+  | .ok o => o == op
+  | .error _ => false
+
+theorem okIs_eq {r : Except Err PortOp} {op : PortOp} (h : okIs r op = true) : r = .ok op := by
+  cases r with
+  | error e => simp [okIs] at h
+  | ok o => simp [okIs] at h; rw [h]
+
+/-- every operator, written with the service name `p.1`, parses to the operator over the number `p.2` -/
+def namedOk (proto : Str) (p : String × Nat) : Bool :=
+  let nm := p.1.toList
+  okIs (parseSpec proto "asa".toList ("eq ".toList ++ nm)) (.eq p.2) &&
+  okIs (parseSpec proto "asa".toList nm) (.eq p.2) &&
+  okIs (parseSpec proto "asa".toList ("neq ".toList ++ nm)) (.neq p.2) &&
+  okIs (parseSpec proto "asa".toList ("lt ".toList ++ nm)) (.lt p.2) &&
+  okIs (parseSpec proto "asa".toList ("gt ".toList ++ nm)) (.gt p.2) &&
+  okIs (parseSpec proto "asa".toList ("range ".toList ++ (nm ++ ' ' :: nm))) (.range p.2 p.2)
+
+theorem tcp_named : Gen.asaTcpPorts.all (namedOk "tcp".toList) = true := by decide +kernel
+theorem udp_named : Gen.asaUdpPorts.all (namedOk "udp".toList) = true := by decide +kernel
+
+theorem tcp_in_range : Gen.asaTcpPorts.all (fun p => 1 ≤ p.2 && p.2 ≤ 65535) = true := by decide +kernel
+theorem udp_in_range : Gen.asaUdpPorts.all (fun p => 1 ≤ p.2 && p.2 ≤ 65535) = true := by decide +kernel
+
 end Ccp.Asa
